@@ -70,6 +70,12 @@ type Case struct {
 	Shape       string `json:"shape,omitempty"`        // label of the generator that made the blob
 	After       string `json:"after,omitempty"`        // eof | txfail
 	PendingRead bool   `json:"pending_read,omitempty"` // a Read is blocked while the bytes arrive
+
+	// conforming, listen: the application calls Accept late. Early > 0 ARQ frames (sizes EarlyN, content from
+	// EarlySeed) are delivered by the TNC after CONNECTED and before Accept is called.
+	Early     int    `json:"early,omitempty"`
+	EarlyN    int    `json:"early_n,omitempty"`
+	EarlySeed uint64 `json:"early_seed,omitempty"`
 }
 
 const hangLimit = 90 * time.Second
@@ -130,6 +136,7 @@ type stats struct {
 	bytesIn, bytesOut       int
 	readAfterDisc, heldDisc bool
 	postCalls               int
+	early                   bool // ARQ frames were delivered between CONNECTED and a late Accept
 }
 
 // runner holds the state of one executing case.
@@ -172,6 +179,30 @@ func (r *runner) call(name string, f func()) {
 	done := make(chan struct{})
 	go func() { defer close(done); psig, pmsg = harness.Catch(f) }()
 	if !waitDone(done) {
+		if name == "Read" && r.c.Family == "conforming" && r.tnc != nil {
+			// Reads are only issued for payload bytes the simulator has already written to the host. A Read
+			// that is still blocked after the limit is judged with a barrier instead of the clock: a command
+			// round trip (VERSION) is sent through the same TNC link; when its answer has come back, the
+			// library's receive loop has certainly handled everything the TNC wrote before it (one ordered
+			// stream in serial mode; in TCP mode the data socket had the whole limit plus the round trip).
+			// If the Read still does not return after that and another full limit, the data was lost: that is
+			// the stream clause of the property ("Read yields exactly the concatenated ARQ payloads"), not a
+			// liveness question.
+			ok := make(chan struct{})
+			go func() { defer close(ok); harness.Catch(func() { r.tnc.Version() }) }()
+			if waitDone(ok) && !waitDone(done) {
+				harness.Record("read-never-returns-delivered-data", r.c, fmt.Sprintf("the TNC delivered %d ARQ payload bytes for the connection, %d were returned by Read; the next Read is blocked although a later command round trip (VERSION) through the same link has completed: the frame(s) were dropped. %s%s", len(r.expect), r.got, r.transcript(10), stacks()))
+				harness.ExitHung()
+			}
+			select {
+			case <-done:
+				if psig != "" {
+					r.fail(psig, "%s: %s", name, pmsg)
+				}
+				return
+			default:
+			}
+		}
 		harness.Record("hang:"+name, r.c, fmt.Sprintf("%s did not return within %v: %s%s", name, hangLimit, r.transcript(8), stacks()))
 		harness.ExitHung()
 	}
@@ -316,17 +347,35 @@ func (r *runner) connect() bool {
 		acc := make(chan struct{})
 		var asig, amsg string
 		var aerr error
-		go func() {
-			defer close(acc)
-			asig, amsg = harness.Catch(func() { r.conn, aerr = r.ln.Accept() })
-		}()
+		accept := func() {
+			go func() {
+				defer close(acc)
+				asig, amsg = harness.Catch(func() { r.conn, aerr = r.ln.Accept() })
+			}()
+		}
+		late := c.Family == "conforming" && c.Early > 0
+		if !late {
+			accept()
+		}
 		// A station connects seconds after LISTEN at the earliest; the library registers its listener for
 		// TARGET/CONNECTED in a goroutine that Listen() starts but does not wait for. Wait until that
 		// goroutine sits in its select loop (observed through the runtime, no clock in any verdict).
-		r.waitListener(lgid)
+		r.waitListener(lgid, "[select")
 		remote := c.Target
 		r.notePTT(c.DialScript...)
 		r.s.InboundConnect(c.DialScript, c.Mycall, remote, 500)
+		if late {
+			// The application is busy and calls Accept late; the remote station starts sending at once. The
+			// frames are sent once the library's listener goroutine is seen waiting to hand the connection over
+			// (it has processed CONNECTED); if that is not observed the early frames are skipped.
+			if r.waitListener(lgid, "[chan send") {
+				for i := 0; i < c.Early; i++ {
+					r.step(Step{Op: "tnc-data", Typ: "ARQ", N: max(1, c.EarlyN), Seed: c.EarlySeed + uint64(i)})
+				}
+				r.st.early = true
+			}
+			accept()
+		}
 		if !waitDone(acc) {
 			harness.Record("hang:Accept", c, "Accept did not return after TARGET/CONNECTED: "+r.transcript(10)+stacks())
 			harness.ExitHung()
@@ -749,18 +798,19 @@ func gid() string {
 
 // waitListener returns once the goroutine started by TNC.Listen (called from goroutine creator) is
 // blocked in its select loop, i.e. has registered for control messages. Best effort after 5 s.
-func (r *runner) waitListener(creator string) {
+func (r *runner) waitListener(creator, state string) bool {
 	buf := make([]byte, 4<<20)
 	deadline := time.Now().Add(5 * time.Second)
 	for time.Now().Before(deadline) {
 		for _, g := range strings.Split(string(buf[:runtime.Stack(buf, true)]), "\n\n") {
-			if strings.Contains(g, "ardop.(*TNC).Listen.func1") && strings.Contains(g, "in goroutine "+creator+"\n") && strings.Contains(strings.SplitN(g, "\n", 2)[0], "[select") {
-				return
+			if strings.Contains(g, "ardop.(*TNC).Listen.func1") && strings.Contains(g, "in goroutine "+creator+"\n") && strings.Contains(strings.SplitN(g, "\n", 2)[0], state) {
+				return true
 			}
 		}
 		time.Sleep(20 * time.Microsecond)
 	}
-	harness.Label("listener-not-observed")
+	harness.Label("listener-not-observed:" + state)
+	return false
 }
 
 // stacks renders the library's goroutines for a hang report.
@@ -965,6 +1015,7 @@ func account(c Case, st stats, sig string) {
 	lab(st.failedWrite > 0, "has:crcfault-x3")
 	lab(st.bigWrite, "has:write>65535")
 	lab(st.smallBuf, "has:reader-buffer<frame")
+	lab(st.early, "has:data-delivered-before-late-Accept")
 	lab(st.flushes > 0, "has:flush")
 	lab(st.ptt > 0, "has:ptt")
 	lab(st.events > 0, "has:events")
